@@ -9,6 +9,7 @@ import compat  # noqa: F401
 from props.base import to_request, corpus_for  # noqa: F401
 
 ID = 'C03'
+CASE_TIMEOUT = None      # impl() runs each program under its own alarm (case['timeout'])
 LEAN_MODULES = ['PybtexModel.Props.C03']
 THEOREMS = {
     'C03_builtin_short_stack': 'every built-in pops arity(b) raw values first (Python order) and only then looks at them: on a shorter stack it raises BibTeXError(pop from empty stack) whatever the types of the values present',
